@@ -749,7 +749,7 @@ func stlGenWriterModel(r *fw.Rand) (stlModel, *astisub.Subtitles, string) {
 		// (titles of any length and script: the GSI field holds 32 bytes, the block stays 1024 bytes whatever comes in)
 		s.Metadata = &astisub.Metadata{Title: fw.Pick(r, []string{"Inherited", "Inherited", "A title that is a good deal longer than thirty-two bytes", "Les Misérables — l'intégrale restaurée, épisode n° 12 «été»", "日本語のタイトルはとても長いです、三十二バイトを超えます", strings.Repeat("é", 31) + "x", strings.Repeat("x", 31) + "é"}),
 			TTMLCopyright: fw.Pick(r, []string{"", "© 2020 Quelqu'un d'autre, tous droits réservés dans le monde entier"}),
-			Framerate: fw.Pick(r, []int{0, 24, 60}), Language: fw.Pick(r, []string{"", "english"})}
+			Framerate:     fw.Pick(r, []int{0, 24, 60}), Language: fw.Pick(r, []string{"", "english"})}
 		g.OPT = s.Metadata.Title
 		g.CO = ""
 		if s.Metadata.Language != "" {
